@@ -58,6 +58,40 @@ func (f *fn) ifStmt(s *ast.IfStmt, rest []ast.Stmt, ind int, fin finFn) bool {
 		if !ok {
 			f.fail(s, "if statement with an initialiser of unsupported form")
 		}
+		// `if v, ok := m[k]; ok { A (terminating) }; rest` on a read-only package-level map
+		if term, valObj, okObj, val, isLookup := f.commaOkLookup(as); isLookup {
+			cid, isId := s.Cond.(*ast.Ident)
+			if !isId || f.info.Uses[cid] != okObj || s.Else != nil || !terminates(s.Body.List) {
+				f.fail(s, "comma-ok lookup used other than `if v, ok := m[k]; ok { …return }`")
+			}
+			ast.Inspect(s.Body, func(m ast.Node) bool {
+				if id, ok := m.(*ast.Ident); ok && f.info.Uses[id] == okObj {
+					f.fail(s, "the ok variable of a lookup is used inside the branch")
+				}
+				return true
+			})
+			f.ind = ind
+			vname := f.nameOf(valObj)
+			val.S = vname
+			savedVars := map[types.Object]Val{}
+			for k, v := range f.vars {
+				savedVars[k] = v
+			}
+			f.vars[valObj] = val
+			a := f.sub(s.Body.List, ind+2, nil)
+			f.vars = savedVars
+			f.ind = ind
+			f.w("match %s with", term)
+			f.w("| some %s => (do", vname)
+			f.lines = append(f.lines, a[:len(a)-1]...)
+			f.lines = append(f.lines, a[len(a)-1]+")")
+			f.w("| none => (do")
+			start := len(f.lines)
+			f.block(rest, ind+2, fin)
+			_ = start
+			f.lines[len(f.lines)-1] += ")"
+			return true
+		}
 		f.assign(as)
 	}
 	cond := f.expr(s.Cond)
@@ -96,81 +130,103 @@ func (f *fn) branch(n ast.Node, cond string, A, B []ast.Stmt, hasElse bool, rest
 		return true
 	}
 	// control flows out of both branches: join the receiver and the outer variables assigned inside
-	vars := f.assignedOuter(n, append(append([]ast.Stmt{}, A...), B...))
-	tuple := "r"
-	if len(vars) > 0 {
-		names := []string{"r"}
-		for _, o := range vars {
-			names = append(names, f.vars[o].S)
-		}
-		tuple = "(" + strings.Join(names, ", ") + ")"
+	f.joinChain(n, []string{cond}, [][]ast.Stmt{A}, B, ind)
+	return false
+}
+
+// joinChain: `if c1 { A1 } else if c2 { A2 } … else { D }` where control flows out of every branch: the value of the
+// chain is the state (receiver and outer variables assigned inside) at the end of the branch taken
+func (f *fn) joinChain(n ast.Node, conds []string, bodies [][]ast.Stmt, deflt []ast.Stmt, ind int) {
+	var all []ast.Stmt
+	for _, b := range bodies {
+		all = append(all, b...)
 	}
+	all = append(all, deflt...)
+	vars := f.assignedOuter(n, all)
+	tuple := packState(f.stateNames(vars))
 	finJoin := func() { f.w("pure %s", tuple) }
 	f.inJoin++
-	a := f.sub(A, ind+2, finJoin)
-	kindsA := f.kindsAfter(A, vars, ind)
-	b := f.sub(B, ind+2, finJoin)
-	kindsB := f.kindsAfter(B, vars, ind)
+	var texts [][]string
+	var kinds [][]Val
+	for _, b := range append(append([][]ast.Stmt{}, bodies...), deflt) {
+		texts = append(texts, f.sub(b, ind+2, finJoin))
+		kinds = append(kinds, f.kindsAfter(b, vars, ind))
+	}
 	f.inJoin--
 	f.ind = ind
+	// a variable that is ℕ on one branch and ℤ on another is carried as ℤ
 	for i := range vars {
-		if kindsA[i] != kindsB[i] {
-			f.fail(n, "variable %s has different kinds on the two branches", vars[i].Name())
+		for _, ks := range kinds[1:] {
+			if !sameType(ks[i], kinds[0][i]) {
+				f.fail(n, "variable %s has different kinds on the two branches", vars[i].Name())
+			}
 		}
 	}
+	names := f.stateNames(vars)
 	j := "r"
-	if len(vars) > 0 {
+	if len(names) == 0 {
+		j = "_"
+	} else if !(len(names) == 1 && !f.noRecv) {
 		f.ntmp++
 		j = fmt.Sprintf("j%d", f.ntmp)
 	}
-	f.w("let %s ← (if %s then (do", j, cond)
-	f.lines = append(f.lines, a[:len(a)-1]...)
-	f.lines = append(f.lines, a[len(a)-1]+") else (do")
-	f.lines = append(f.lines, b[:len(b)-1]...)
-	f.lines = append(f.lines, b[len(b)-1]+"))")
-	if len(vars) > 0 {
-		f.w("let r := %s.1", j)
-		for i, o := range vars {
-			proj := fmt.Sprintf("%s.2", j)
-			for k := 0; k < i; k++ {
-				proj += ".2"
-			}
-			if i < len(vars)-1 {
-				proj = fmt.Sprintf("%s.2", j) + strings.Repeat(".2", i) + ".1"
-			}
-			v := f.vars[o]
-			f.w("let %s : %s := %s", v.S, leanKindType(kindsA[i]), proj)
-			f.vars[o] = Val{S: v.S, K: kindsA[i], N: -1}
+	for k, c := range conds {
+		if k == 0 {
+			f.w("let %s ← (if %s then (do", j, c)
+		} else {
+			f.lines[len(f.lines)-1] += ") else (if " + c + " then (do"
 		}
+		a := texts[k]
+		f.lines = append(f.lines, a...)
 	}
-	return false
+	f.lines[len(f.lines)-1] += ") else (do"
+	b := texts[len(texts)-1]
+	f.lines = append(f.lines, b[:len(b)-1]...)
+	f.lines = append(f.lines, b[len(b)-1]+")"+strings.Repeat(")", len(conds)))
+	if j != "r" && j != "_" {
+		km := map[types.Object]Val{}
+		for i, o := range vars {
+			kv := kinds[0][i]
+			kv.S = f.vars[o].S
+			km[o] = kv
+		}
+		f.unpackState(j, vars, km)
+	}
+	for i, o := range vars {
+		v := kinds[0][i]
+		v.S = f.vars[o].S
+		v.N, v.Prop, v.IsConst, v.Al = -1, false, false, nil
+		f.vars[o] = v
+	}
 }
 
 func boolOf(cond string) string { return cond }
 
-// kindsAfter: the kinds the join variables have at the end of a branch (re-translated in a scratch buffer)
-func (f *fn) kindsAfter(stmts []ast.Stmt, vars []types.Object, ind int) []Kind {
+// kindsAfter: the shapes the join variables have at the end of a branch (re-translated in a scratch buffer)
+func (f *fn) kindsAfter(stmts []ast.Stmt, vars []types.Object, ind int) []Val {
 	saved := f.lines
 	savedVars := map[types.Object]Val{}
 	for k, v := range f.vars {
 		savedVars[k] = v
 	}
 	savedTmp := f.ntmp
+	savedAl := f.aliases
 	f.lines = nil
-	var out []Kind
+	var out []Val
 	f.inJoin++
 	f.block(stmts, ind, func() {
 		for _, o := range vars {
-			out = append(out, f.vars[o].K)
+			out = append(out, f.vars[o])
 		}
 	})
 	f.inJoin--
 	f.lines = saved
 	f.vars = savedVars
 	f.ntmp = savedTmp
+	f.aliases = savedAl
 	if len(vars) > 0 && len(out) == 0 { // the branch never falls through (cannot happen: it does not terminate)
 		for range vars {
-			out = append(out, KInt)
+			out = append(out, Val{K: KInt, N: -1})
 		}
 	}
 	return out
@@ -179,13 +235,21 @@ func (f *fn) kindsAfter(stmts []ast.Stmt, vars []types.Object, ind int) []Kind {
 // assignedOuter: local variables declared outside stmts and assigned inside, in order of declaration
 func (f *fn) assignedOuter(n ast.Node, stmts []ast.Stmt) []types.Object {
 	set := map[types.Object]bool{}
-	mark := func(e ast.Expr) {
-		if id, ok := e.(*ast.Ident); ok {
-			if obj := f.info.Uses[id]; obj != nil {
+	var mark func(e ast.Expr)
+	mark = func(e ast.Expr) {
+		switch x := e.(type) {
+		case *ast.Ident:
+			if obj := f.info.Uses[x]; obj != nil {
 				if _, known := f.vars[obj]; known {
 					set[obj] = true
 				}
 			}
+		case *ast.ParenExpr:
+			mark(x.X)
+		case *ast.IndexExpr: // local[i] = …
+			mark(x.X)
+		case *ast.SelectorExpr: // local.field = …
+			mark(x.X)
 		}
 		// copy(local[:], …)
 	}
@@ -223,7 +287,7 @@ func (f *fn) switchStmt(s *ast.SwitchStmt, rest []ast.Stmt, ind int, fin finFn) 
 	}
 	f.ind = ind
 	tag := f.expr(s.Tag)
-	if width(tag.K) == 0 {
+	if width(tag.K) == 0 && swidth(tag.K) == 0 && tag.K != KNat && tag.K != KInt {
 		f.fail(s, "switch tag of unsupported kind")
 	}
 	tv := f.tmp()
@@ -253,10 +317,17 @@ func (f *fn) switchStmt(s *ast.SwitchStmt, rest []ast.Stmt, ind int, fin finFn) 
 		for _, e := range cc.List {
 			before := len(f.lines)
 			v := f.expr(e)
-			if v.K != tag.K || len(f.lines) != before {
+			if len(f.lines) != before {
 				f.fail(e, "case expression")
 			}
-			alts = append(alts, fmt.Sprintf("(%s == %s)", tv, v.S))
+			switch {
+			case v.K == tag.K:
+				alts = append(alts, fmt.Sprintf("(%s == %s)", tv, v.S))
+			case (v.K == KNat || v.K == KInt) && (tag.K == KNat || tag.K == KInt):
+				alts = append(alts, fmt.Sprintf("(%s == %s)", f.asInt(Val{S: tv, K: tag.K}), f.asInt(v)))
+			default:
+				f.fail(e, "case expression")
+			}
 		}
 		cond := alts[0]
 		if len(alts) > 1 {
@@ -266,6 +337,23 @@ func (f *fn) switchStmt(s *ast.SwitchStmt, rest []ast.Stmt, ind int, fin finFn) 
 	}
 	// build the chain from the back as synthetic statements is not possible without type information for new
 	// nodes; instead recurse on the clause list
+	// when control flows out of some clause, the switch is a join over all clauses (a missing default changes nothing)
+	flowsOut := false
+	for _, c := range clauses {
+		if !terminates(c.body) {
+			flowsOut = true
+		}
+	}
+	if flowsOut {
+		var conds []string
+		var bodies [][]ast.Stmt
+		for _, c := range clauses {
+			conds = append(conds, c.cond)
+			bodies = append(bodies, c.body)
+		}
+		f.joinChain(s, conds, bodies, deflt, ind)
+		return false
+	}
 	var chain func(k int, rest []ast.Stmt, fin finFn) bool
 	chain = func(k int, rest []ast.Stmt, fin finFn) bool {
 		if k == len(clauses) {
@@ -371,31 +459,36 @@ func (f *fn) prepareMethodCall(call *ast.CallExpr) (string, []string, []string, 
 		}
 		f.g.inProgress[name] = true
 		f.g.useField(recvNamed, "")
-		h := f.g.newFn(src, recvNamed)
-		if h.recvObj == nil {
-			f.fail(call, "call of %s: unnamed receiver", callee.FullName())
-		}
-		ps := h.bindParams(src.decl.Type.Params.List)
+		var h *fn
 		var pdecl []string
-		for _, p := range ps {
-			for _, v := range h.vars {
-				if v.S == p {
-					pdecl = append(pdecl, fmt.Sprintf("(%s : %s)", p, leanKindType(v.K)))
+		withFuelRetry(func(fuel bool) {
+			h = f.g.newFn(src, recvNamed)
+			h.fuel = fuel
+			if h.recvObj == nil {
+				f.fail(call, "call of %s: unnamed receiver", callee.FullName())
+			}
+			ps := h.bindParams(src.decl.Type.Params.List)
+			pdecl = nil
+			for _, p := range ps {
+				for _, v := range h.vars {
+					if v.S == p {
+						pdecl = append(pdecl, fmt.Sprintf("(%s : %s)", p, leanKindType(v.K)))
+					}
 				}
 			}
-		}
-		h.results = res
-		func() {
-			defer func() {
-				if r := recover(); r != nil {
-					if gu, ok := r.(giveUp); ok {
-						panic(giveUp{fmt.Sprintf("%s (in %s)", gu.msg, callee.FullName())})
+			h.results = res
+			func() {
+				defer func() {
+					if r := recover(); r != nil {
+						if gu, ok := r.(giveUp); ok {
+							panic(giveUp{fmt.Sprintf("%s (in %s)", gu.msg, callee.FullName())})
+						}
+						panic(r)
 					}
-					panic(r)
-				}
+				}()
+				h.block(src.decl.Body.List, 1, nil)
 			}()
-			h.block(src.decl.Body.List, 1, nil)
-		}()
+		})
 		rt := leanTypeName(recvNamed)
 		if len(res) > 0 {
 			parts := []string{rt}
@@ -406,10 +499,11 @@ func (f *fn) prepareMethodCall(call *ast.CallExpr) (string, []string, []string, 
 			rt = "(" + strings.Join(parts, " × ") + ")"
 		}
 		pos := src.pkg.Fset.Position(src.decl.Pos())
-		text := fmt.Sprintf("/-- translated from `%s` (%s) -/\ndef %s (r : %s) %s : R %s := do\n%s\n", callee.FullName(), shortFile(pos.Filename),
-			name, leanTypeName(recvNamed), strings.Join(pdecl, " "), rt, strings.Join(h.lines, "\n"))
+		text := fmt.Sprintf("/-- translated from `%s` (%s) -/\ndef %s (r : %s) %s : %s %s := do\n%s\n", callee.FullName(), shortFile(pos.Filename),
+			name, leanTypeName(recvNamed), strings.Join(pdecl, " "), h.M(), rt, strings.Join(h.lines, "\n"))
 		f.g.defs[name] = text
 		f.g.defOrder = append(f.g.defOrder, name)
+		f.g.defMonad[name] = h.M()
 		delete(f.g.inProgress, name)
 	}
 	return name, lp, args, res
@@ -426,7 +520,13 @@ func (f *fn) methodCall(call *ast.CallExpr, lhs []ast.Expr, define bool) {
 		recv = "r." + strings.Join(lp, ".")
 	}
 	t := f.tmp()
-	f.w("let %s ← %s %s %s", t, name, recv, strings.Join(args, " "))
+	term := fmt.Sprintf("%s %s %s", name, recv, strings.Join(args, " "))
+	if f.g.defMonad[name] == "RF" {
+		f.requireFuel()
+	} else if f.fuel {
+		term = f.lift(term)
+	}
+	f.w("let %s ← %s", t, term)
 	newRecv := t
 	if len(res) > 0 {
 		newRecv = t + ".1"
